@@ -250,7 +250,7 @@ def run_sem(prop, tier, v, families=None, opts=None, replay_cases=None, want=("s
             # model checking with the machines' real Next relation: every state of every run of a sample of the
             # dumped programs is explored, invariants on every state, termination as a liveness property
             t0 = time.time()
-            nsp = 100 if tier == "quick" else 1000
+            nsp = 100 if tier == "quick" else 300
             total = sum(1 for _ in open(paths["vm"]))
             every = max(1, total // nsp)
             spf = paths["vm"] + ".space"
@@ -274,7 +274,18 @@ def run_sem(prop, tier, v, families=None, opts=None, replay_cases=None, want=("s
                         kept_hays.append(keep)
             # depth-first queue: a run that never ends is followed to the step bound at once instead of after every
             # other run has been explored to the same depth (33 s instead of > 25 min on such a tree; same result otherwise)
-            res = C.tlc("MCVMSpace", "MCVMSpace.cfg", env={"OBS": spf}, workers=8, xmx="10g", timeout=3000, workdir=work, allow_violation=True, deque=True)
+            # (the step bound guards the exploration against runs that grow for ever; it has to sit above the longest
+            # legitimate run: about 1 200 steps in the quick tier, tens of thousands for the thorough tier's {2,} nests)
+            try:
+                res = C.tlc("MCVMSpace", "MCVMSpace.cfg" if tier == "quick" else "MCVMSpace_thorough.cfg", env={"OBS": spf}, workers=8,
+                            xmx="10g", timeout=1500, workdir=work, allow_violation=True, deque=True)
+            except C.ToolError as e:
+                if "timed out" not in str(e):
+                    raise
+                R.setdefault("skipped_layers", []).append("MCVMSpace")
+                v.note("machine state spaces (MCVMSpace): the exploration did not finish in 25 minutes and was abandoned; the step "
+                       "measurements, the machine runs and the validated traces decide")
+                return
             inv = res.violated_invariant()
             R["space_states"] = res.distinct
             R["states"] += res.distinct
